@@ -69,7 +69,8 @@ vfps::FokkerPlanckMap::FokkerPlanckMap( std::shared_ptr<PhaseSpace> in
         _hinfo[_ip+1] = {0,0};
         _hinfo[_ip+2] = {0,0};
         _hinfo[_ip+3] = {0,0};
-        for (meshindex_t j=2; j< ycenter; j++) {
+        // both one-sided stencils have to stay on the grid, wherever zero energy is
+        for (meshindex_t j=2; j< ycenter && j+2 < _ysize; j++) {
             const meshaxis_t pos = in->p(j);
             _hinfo[j*_ip  ]={j-2,0};
             _hinfo[j*_ip+1]={j-1,0};
@@ -87,7 +88,8 @@ vfps::FokkerPlanckMap::FokkerPlanckMap( std::shared_ptr<PhaseSpace> in
                 _hinfo[j*_ip+3].weight +=    e1_d2;
             }
         }
-        for (meshindex_t j=ycenter; j<static_cast<meshindex_t>(_ysize-2);j++) {
+        for (meshindex_t j=std::max(ycenter,static_cast<meshaxis_t>(2));
+             j<static_cast<meshindex_t>(_ysize-2);j++) {
             const meshaxis_t pos = in->p(j);
             _hinfo[j*_ip  ]={j-1,0};
             _hinfo[j*_ip+1]={j  ,1};
